@@ -122,19 +122,60 @@ struct C14 : Harness {
         if (!d.empty()) return d;
         if (!st.shrinking) {
             bool nt = false; bool pending = false;
+            // coverage matrix of the statement: function x class of invalid argument x object state
+            std::string kn = p[0].name.substr(4);
+            int kind = kind_of(kn); int bs = kind_bs(kind); bool ctr = kind_is_ctr(kind);
+            bool sched = kind == K128 || kind == K64 || kind == T128 || kind == T64 || kind == MK;
+            bool mant = kind == MK || kind == CM || kind == PM;
+            std::string state = sched ? "unkeyed" : (p[0].geti("fill") == 0 ? "zeroed" : "garbage");
+            long long pos = 0;
             for (size_t i = 0; i < p.size(); ++i) {
                 const Op &op = p[i];
                 std::string fn = op.name.substr(op.name.find('.') + 1);
+                if (op.name.rfind("new.", 0) == 0) continue;
                 if (op.geti("inv")) {
                     pending = true;
-                    std::string cls = fn;
-                    if (op.geti("s", 0) < 0) cls += "/null-object";
-                    else if (op.isnull("key") || op.isnull("in")) cls += "/null-arg";
-                    else if (op.geti("onull")) cls += "/null-output";
-                    st.count("invalid/" + op.name.substr(0, op.name.find('.')) + "." + cls);
+                    std::string cls = "args-ok";
+                    long long len = op.geti("len", 0);
+                    if (op.geti("s", 0) < 0) cls = "null-object";
+                    else if (op.isnull("key")) cls = "null-key";
+                    else if (fn == "set_key" || fn == "set_tweaked_key") {
+                        bool tkf = fn == "set_tweaked_key" || kind == T128 || kind == T64;
+                        unsigned ul = (unsigned)len;
+                        bool lenok = mant ? ul == 16 : (ul >= (unsigned)bs && ul <= (unsigned)(tkf ? 2 : 3) * bs);
+                        long long r = op.geti("rounds", 7);
+                        if (!lenok) cls = ul > 0xFFFF ? "bad-len-huge" : "bad-len";
+                        else if (mant && (r < 5 || r > 8)) cls = (unsigned)r > 0xFFFF ? "bad-rounds-huge" : "bad-rounds";
+                    } else if (fn == "set_tweak") {
+                        unsigned ul = (unsigned)len;
+                        bool lenok = mant ? ul == 8 : (ul >= 1 && ul <= (unsigned)bs);
+                        if (!lenok) cls = std::string(ul > 0xFFFF ? "bad-len-huge" : "bad-len") + (op.isnull("tweak") ? "+null" : "");
+                    } else if (fn == "set_counter") {
+                        unsigned ul = (unsigned)len;
+                        if (ul > (unsigned)bs) cls = std::string(ul > 0xFFFF ? "bad-len-huge" : "bad-len") + (op.isnull("ctr") ? "+null" : "");
+                    } else if (fn == "encrypt") {
+                        if (op.isnull("in") && op.geti("onull")) cls = "null-in+out";
+                        else if (op.isnull("in")) cls = "null-in";
+                        else if (op.geti("onull")) cls = "null-out";
+                    } else if (fn == "enc" || fn == "dec" || fn == "crypt") {
+                        const Bytes *in = op.getb("in");
+                        if (in && in->size() % bs) cls = "ragged";
+                    }
+                    st.count("cell/" + kn + "." + fn + "/" + cls + (cls == "null-object" ? "" : "@" + state));
                 } else if (ta[i].has_out && ta[i].ret != 0 && pending) { nt = true; }
+                // object state after this call (from the library's own answers)
+                if (op.geti("s", 0) < 0) continue;
+                if (fn == "init") { state = ta[i].ret == 1 ? "fresh" : "failed"; pos = 0; }
+                else if (fn == "cleanup") state = "cleaned";
+                else if (ta[i].ret == 1 && (fn == "set_key" || fn == "set_tweaked_key")) { state = "keyed"; pos = 0; }
+                else if (ta[i].ret == 1 && (fn == "set_tweak" || fn == "set_counter")) { if (state == "midstream") state = "keyed"; pos = 0; }
+                else if (ta[i].ret == 1 && fn == "encrypt" && ctr && (state == "keyed" || state == "midstream")) {
+                    const Bytes *in = op.getb("in");
+                    pos += in ? (long long)in->size() : 0;
+                    state = pos % bs ? "midstream" : "keyed";
+                }
             }
-            st.count(std::string("kind/") + p[0].name.substr(4));
+            st.count(std::string("kind/") + kn);
             st.case_done(ser(p), nt);
         }
         return "";
